@@ -112,6 +112,19 @@ check('C14', 'model-based testing: Hypothesis-generated invocation histories ove
       'Acceptance of odd sources is decided by the library entry point in-process. xrun\'s a.bin is exempt.',
       'DESIGN.md 6 C14')
 
+check('C09', 'coverage-guided fuzzing (libFuzzer, ASan+UBSan, token-level custom mutator, seeded and empty corpus) with an in-target oracle + Hypothesis-generated unusual programs',
+      'Every input reaches xcmp::Driver::run in-process; the target itself asserts clean rejection (no binary, sane location) or acceptance (binary whose header fits), '
+      'recompiles accepted inputs under two heap fills, and exercises every driver action; crashes are bucketed by sanitizer kind and innermost repository frame, '
+      'minimised and reported per root cause. Structured half: grammar-generated programs with discipline-breaking mutations through every driver action and the real executable.',
+      'Time-budgeted campaigns (counts measured). Uninitialised reads that never reach the output are visible only to the thorough tier\'s valgrind sample. '
+      'Stack overflows count only if the production executable also dies.',
+      'DESIGN.md 6 C09')
+check('C10', 'coverage-guided fuzzing of the assembler entry points with an in-target oracle + Hypothesis-generated unusual assembly',
+      'As C09 for hexasm: Lexer/Parser/CodeGen/emitBin and the tokeniser under libFuzzer with sanitizers; layout non-termination observed as a timeout confirmed by three '
+      '60 s re-runs; unusual sources (undefined/duplicated/keyword-like labels, huge literals, truncated operands, stray tokens) through asmtool and the real executable.',
+      'Termination is a budget observation.',
+      'DESIGN.md 6 C10')
+
 NOT_YET = {}
 
 def main():
